@@ -53,6 +53,11 @@ def _requests(ttb, o, rs):
         A(f"{name}.permute(out-of-range)", name, lambda obj=obj: obj.permute(np.arange(1, N + 1)))
         A(f"{name}.mttkrp(wrong-list-length)", name, lambda obj=obj: obj.mttkrp([np.ones((d, 2)) for d in shp][:-1], 0))
         A(f"{name}.mttkrp(wrong-rows)", name, lambda obj=obj: obj.mttkrp([np.ones((d + 1, 2)) for d in shp], 0))
+        # the Kruskal-operand form: one factor per mode of the receiver, with matching row counts
+        A(f"{name}.mttkrp(ktensor-with-extra-mode)", name, lambda obj=obj: obj.mttkrp(ttb.ktensor([np.ones((d, 2)) for d in shp + (5,)], np.ones(2)), 0))
+        A(f"{name}.mttkrp(ktensor-with-extra-singleton-mode)", name, lambda obj=obj: obj.mttkrp(ttb.ktensor([np.ones((d, 2)) for d in shp + (1,)], np.ones(2)), N - 1))
+        A(f"{name}.mttkrp(ktensor-with-too-few-modes)", name, lambda obj=obj: obj.mttkrp(ttb.ktensor([np.ones((d, 2)) for d in shp[:-1]], np.ones(2)), 0))
+        A(f"{name}.mttkrp(ktensor-wrong-rows)", name, lambda obj=obj: obj.mttkrp(ttb.ktensor([np.ones((d + 1, 2)) for d in shp], np.ones(2)), 0))
     for name in ("T", "S", "TT", "S0", "S1"):
         obj = o[name]
         A(f"{name}.ttm(wrong-size)", name, lambda obj=obj: obj.ttm(np.ones((2, shp[0] + 1)), 0))
@@ -268,6 +273,16 @@ class _:
             B = self._run(ttb, alg, dense.to_sptensor(), init(), 1)
             if not _relclose(_dense_of(ttb, A), _dense_of(ttb, B), 1e-8):
                 raise Fail(f"dense-vs-sparse:{alg}", f"{case}: max diff {np.abs(_dense_of(ttb, A) - _dense_of(ttb, B)).max()}")
+            if alg.startswith("cp_apr"):
+                # an admissible start that is exactly zero on a non-empty slice (the model vanishes at nonzero data)
+                Z0 = [u.copy() for u in U0]
+                Z0[0][0, :] = 0.0
+                Z0[2][2, 0] = 0.0
+                zinit = lambda: ttb.ktensor([u.copy() for u in Z0], np.ones(2))
+                A = self._run(ttb, alg, dense, zinit(), 1)
+                B = self._run(ttb, alg, dense.to_sptensor(), zinit(), 1)
+                if not _relclose(_dense_of(ttb, A), _dense_of(ttb, B), 1e-8):
+                    raise Fail(f"dense-vs-sparse:{alg}:zero-row-start", f"{case}: max diff {np.abs(_dense_of(ttb, A) - _dense_of(ttb, B)).max()}")
         elif var == "printing":
             A = self._run(ttb, alg, dense, init(), 1, quiet=True)
             B = self._run(ttb, alg, dense, init(), 1, quiet=False)
